@@ -87,6 +87,9 @@ class ModeWrapper(KDDataset):
 
     @staticmethod
     def set_item(mode, item, batch, value):
+        if not isinstance(batch, (list, tuple)):
+            assert len(mode.split(" ")) == 1
+            return value
         idx = mode.split(" ").index(item)
         return tuple(it if i != idx else value for i, it in enumerate(batch))
 
